@@ -328,6 +328,11 @@ func (d *Def) getMethodNameAndSetIsStatic(
 	if t.IsTargetIdentifier("self") {
 		ctx.IsDefineStatic = true
 
+		// a bare private/protected in the class body only covers later
+		// instance methods, def self.m stays public
+		ctx.EndPrivate()
+		ctx.EndProtected()
+
 		t, err = p.ReadTwice()
 		if err != nil {
 			return "", err
